@@ -644,7 +644,9 @@ pub fn c17(o: &Opts, t: &mut Tracer) -> Value {
                                     continue;
                                 }
                                 // quick: stratified sample of the enumeration
-                                if o.quick() && (vi * 7 + mi * 5 + hi * 3 + ci * 11 + ti * 13 + despite as usize + n) % 9 != (o.seed % 9) as usize {
+                                // (the plainest requests are always taken, whatever the seed)
+                                let always = *h == "none" && *c == "none" && *te == "none" && !despite;
+                                if o.quick() && !always && (vi * 7 + mi * 5 + hi * 3 + ci * 11 + ti * 13 + despite as usize + n) % 9 != (o.seed % 9) as usize {
                                     continue;
                                 }
                                 let mut orig: Vec<(String, Vec<u8>)> = vec![("x-a".into(), b"1".to_vec())];
@@ -702,7 +704,7 @@ pub fn c17(o: &Opts, t: &mut Tracer) -> Value {
                                 orig.extend(gen_headers(&mut rng, (n % 3) as usize));
                                 let hops = if redirected { vec![([302u16, 301, 307, 303][n % 4], ["/next", "http://b.test/x"][(n / 4) % 2].to_string())] } else { vec![] };
                                 // an origin-form target and no Host at all is none of the refused classes
-                                let uri = if *h == "none" && !redirected && (n / 4) % 3 == 0 { "/p?q=1" } else { "http://u.test/p?q=1" };
+                                let uri = if *h == "none" && !redirected && ((always && (vi + mi) % 2 == 0) || (n / 4) % 3 == 0) { "/p?q=1" } else { "http://u.test/p?q=1" };
                                 let s = ReqSpec { method: m.to_string(), version: v, uri: uri.into(), orig, added, despite, api, hops, policy_same_host: n % 3 == 0, despite_first: n % 2 == 0, sensitive: false };
                                 t.sig(format!("c17/{}/{}/{}/{}/{}/{}/{}/{}", v, m, h, c, te, despite, api, redirected));
                                 exercise(t, &s, &mut rng, 1, true, "c17");
